@@ -167,6 +167,49 @@ def run_variant(args) -> dict:
         shutil.rmtree(d, ignore_errors=True)
 
 
+def run_corpus_patch(args) -> dict:
+    """One committed patch of the seeded / benign corpus of this property (written by independent authors, see
+    DESIGN 10.6), applied to a scratch copy of the tree under analysis and analysed - never executed."""
+    import subprocess
+
+    src_root, pid, kind, patch, baseline = args
+    sid = os.path.basename(os.path.dirname(patch))
+    d = make_scratch(src_root)
+    try:
+        r = subprocess.run(["git", "apply", "--include=nutree/*", patch], cwd=d, capture_output=True, text=True)
+        if r.returncode != 0:
+            return {"id": sid, "kind": kind, "status": "skipped", "why": "patch does not apply to this tree"}
+        found, err = findings_for(d, pid)
+        new = {k: t for k, t in found.items() if k not in baseline}
+        res = {"id": sid, "kind": kind, "new": sorted(new.values())[:3], "error": err}
+        if kind == "seeded":
+            res["status"] = "fired" if new else "FAILED"
+            if not new:
+                res["why"] = "seeded property-breaking change not reported" + (f" ({err})" if err else "")
+        else:
+            res["status"] = "silent" if not new and not err else "FAILED"
+            if res["status"] == "FAILED":
+                res["why"] = f"false alarm on a behaviour-preserving refactoring: {sorted(new.values())[:2] or err}"
+        return res
+    finally:
+        shutil.rmtree(d, ignore_errors=True)
+
+
+def tree_digest(root: str) -> str:
+    """sha256 over ast.dump of every nutree/*.py (formatting and comments do not count)."""
+    import ast
+    import hashlib
+
+    h = hashlib.sha256()
+    d = os.path.join(root, "nutree")
+    for fn in sorted(os.listdir(d)):
+        if fn.endswith(".py"):
+            with open(os.path.join(d, fn), encoding="utf8") as fp:
+                h.update(fn.encode())
+                h.update(ast.dump(ast.parse(fp.read())).encode())
+    return h.hexdigest()
+
+
 def run_for_property(pid: str, ctx=None, jobs: int = 16) -> dict:
     from .variants import VARIANTS
 
@@ -184,8 +227,24 @@ def run_for_property(pid: str, ctx=None, jobs: int = 16) -> dict:
     if tasks:
         with ProcessPoolExecutor(max_workers=min(jobs, len(tasks))) as ex:
             results = list(ex.map(run_variant, tasks))
-    errors = [f"{r['id']}: {r.get('why')}" for r in results if r["status"] == "FAILED"]
+    import glob
+
+    V = os.path.dirname(os.path.dirname(os.path.abspath(__file__)))
+    ctasks = [(src_root, pid, kind, p_, base_keys) for kind in ("seeded", "benign") for p_ in sorted(glob.glob(os.path.join(V, kind, f"{pid}-*", "patch.diff")))]
+    cres: List[dict] = []
+    if ctasks:
+        with ProcessPoolExecutor(max_workers=min(jobs, len(ctasks))) as ex:
+            cres = list(ex.map(run_corpus_patch, ctasks))
+    errors = [f"{r['id']}: {r.get('why')}" for r in results + cres if r["status"] == "FAILED"]
+    corpus = {
+        "seeded_fired": sum(1 for r in cres if r["status"] == "fired"),
+        "seeded_total": sum(1 for r in cres if r["kind"] == "seeded" and r["status"] != "skipped"),
+        "benign_silent": sum(1 for r in cres if r["status"] == "silent"),
+        "benign_total": sum(1 for r in cres if r["kind"] == "benign" and r["status"] != "skipped"),
+        "skipped": [r["id"] for r in cres if r["status"] == "skipped"],
+    }
     return {
+        "corpus": corpus,
         "variants": len(vs),
         "breaking_fired": sum(1 for r in results if r["status"].startswith("fired")),
         "breaking_total": sum(1 for r in results if r["kind"] == "break" and r["status"] != "skipped"),
